@@ -500,7 +500,14 @@ def build_golden(env, i, d):
     return info
 
 def run_program(env, seed, part):
-    d = os.path.join(env['scratch'], 'p%d' % seed); shutil.rmtree(d, ignore_errors=True); os.makedirs(d); q = Quad(env, d); P = Prog(env, seed, part); P.q = q; ck = env['ck']
+    d = os.path.join(env['scratch'], 'p%d' % seed)
+    for attempt in (0, 1):
+        shutil.rmtree(d, ignore_errors=True); os.makedirs(d)
+        try: q = Quad(env, d); break
+        except OSError as e:      # the executor / library is being re-linked by a concurrent build: wait for the build lock, try once more
+            import subprocess; subprocess.run([sys.executable, f'{VERIF}/tools/build.py', 'asan', 'botan'], stdout=subprocess.DEVNULL, stderr=subprocess.DEVNULL)
+            if attempt == 1: part.inconc('executor could not be started: %r' % (e,)); return
+    P = Prog(env, seed, part); P.q = q; ck = env['ck']
     try:
         for r in q.call('C_Initialize'): assert r['rv'] == 0, r
         slots = []
